@@ -156,7 +156,8 @@ package query
 // typed nil pointer - protobuf decoding allocates it.)
 //@ func query.QFromProto
 //@   flag notypednil=true
-//@   ensures true
+//@   ensures (p == nil || p.Query == nil) ==> result1 != nil
+//@   ensures result1 == nil ==> result0 != nil
 //@   assigns nothing
 
 // The loop-carrying variant decoders only allocate fresh nodes (assumed).
